@@ -86,6 +86,9 @@ pub const RET_TYPES: &[&str] = &["void", "int", "java.lang.String", "a.b", "com.
 pub const FOREIGN: &[&str] = &["com.example.Other", "kotlin.jvm.internal.Intrinsics", "a.b.C$D", "x.Y"];
 pub const FILES: &[&str] = &["Foo.kt", "SourceFile", "R8$$SyntheticClass", "Bar.java", "F\u{f6}\u{f6}.kt"];
 
+/// Largest line number of the representable domain (line numbers are < 2^32 - 1).
+pub const MAX_LINE: u64 = (1 << 32) - 2;
+
 fn long_name(rng: &mut Rng, base: &str) -> String {
     // > 127 bytes, so the LEB128 length prefix in the string table needs two bytes
     let n = rng.range(120, 300) as usize;
@@ -227,6 +230,7 @@ pub fn gen_mapping(rng: &mut Rng, cfg: &GenCfg) -> Vec<u8> {
             let s = line_no(rng, cfg);
             let e_line = if rng.chance(1, 3) { s } else { s + rng.range(0, 8) };
             let e_line = if rng.chance(1, 25) { s.saturating_sub(rng.range(1, 3)) } else { e_line }; // inverted
+            let e_line = e_line.min(MAX_LINE);
             let tot: u64 = cfg.w_range.iter().sum();
             for gi in 0..group {
                 let mut kind = {
@@ -279,7 +283,8 @@ pub fn gen_mapping(rng: &mut Rng, cfg: &GenCfg) -> Vec<u8> {
                             os + (e_line.saturating_sub(s))
                         } else {
                             os + rng.range(0, 9)
-                        };
+                        }
+                        .min(MAX_LINE);
                         line.push_str(&format!(":{}", oe));
                     }
                 }
